@@ -87,7 +87,7 @@ func TestVerifMLKEMEncapsKeys(t *testing.T) {
 		ncoef := 256 * k
 		// every coefficient position pushed to q, q+1, 4095 (refused) and to q-1, 0 (accepted) on rotating keys
 		for idx := 0; idx < ncoef; idx++ {
-			for vi, v := range []uint{3329, 3330, 4095, 3328, 0, 2048 + 1281} {
+			for vi, v := range []uint{3329, 3330, 4095, 3328, 0, 2048} {
 				c := lib.Clone(keys[(idx+vi)%len(keys)])
 				c09ref.MLKEMSetCoeff(c, idx, v)
 				class := "coefficient-out-of-range"
@@ -98,15 +98,17 @@ func TestVerifMLKEMEncapsKeys(t *testing.T) {
 					class = "coefficient-3328"
 				case 0:
 					class = "coefficient-zero"
+				case 2048:
+					class = "coefficient-in-range"
 				}
 				w.add(class, c)
 			}
 		}
 		// every single-bit alteration of whole keys (the 32 trailing bytes of rho are free)
-		for i := 0; i < lib.Scale(1, 12); i++ {
+		for i := 0; i < lib.Scale(1, 6); i++ {
 			w.allFlips("bitflip", keys[1+i])
 		}
-		for i := 0; i < lib.Scale(3000, 60000); i++ {
+		for i := 0; i < lib.Scale(3000, 30000); i++ {
 			c := lib.Clone(keys[i%len(keys)])
 			c[r.Intn(len(c))] ^= 1 << uint(r.Intn(8))
 			if i%2 == 0 {
